@@ -634,6 +634,14 @@ def _run_check(ctx, mod, replay):
             ok = True
         if ok and extra_judge is not None and extra_judge(c) is False:
             ok = False
+        if (not ok and c.spec == "nopanic" and c.impl == "PANIC" and (c.extra or {}).get("panic", "").strip().startswith("capacity overflow")
+                and getattr(mod, "MEMORY_EXCLUSION_IN_UNCONSTRAINED", True)):
+            # C08's statement excludes "requests for more memory than the machine has".  Where the oracle
+            # computes the request it says so itself (verdict `any`); in a program it leaves unconstrained
+            # (verdict `nopanic`) the size of the request is not known to it, and Rust's "capacity overflow"
+            # is exactly such a request (a Vec/String longer than isize::MAX): excluded, counted, not a violation.
+            dist["excluded:capacity-overflow-in-unconstrained-program"] = dist.get("excluded:capacity-overflow-in-unconstrained-program", 0) + 1
+            ok = True
         if not ok:
             key = classify(c)
             if key is not None and key in known_keys:
